@@ -86,7 +86,12 @@ func (c rcase) modelLine() string {
 	}
 	var rs []string
 	for _, r := range c.expectedRivals() {
-		rs = append(rs, stepEnc(r.Write))
+		// '>': issued after writer.Merge (InterceptAfter, gau.beforeLock): never reached when Merge panics
+		phase := ""
+		if pointRank(r.At) >= pointRank("intercept-after") {
+			phase = ">"
+		}
+		rs = append(rs, phase+stepEnc(r.Write))
 	}
 	rivals := "_"
 	if len(rs) > 0 {
